@@ -206,8 +206,31 @@ func (c *Ctx) Violate(caseID, finding, detail string, replay any) {
 	c.Flush(false)
 }
 
+// Borrow runs one batch of another property's quick workload inside this
+// batch, for the sake of the process-level monitors (race detector, crash
+// monitor). What that workload's own oracle finds is not this property's to
+// judge - its check does that without the race detector's slowdown - so those
+// findings are counted and dropped.
+func (c *Ctx) Borrow(prop string, batch, nbatches int) {
+	p := Lookup(prop)
+	if p == nil {
+		return
+	}
+	sub := NewCtx(prop, "quick", c.Seed, batch, nbatches, "", c.progress)
+	p.Run(sub)
+	sub.mu.Lock()
+	ev, nv := sub.out.Evaluations, int64(len(sub.out.Violations))+sub.out.ViolDropped
+	sub.mu.Unlock()
+	c.Count("borrowed_workload_batches", 1)
+	c.Count("borrowed_"+prop+"_cases", ev)
+	c.Count("borrowed_findings_left_to_their_own_check", nv)
+}
+
 // Flush writes the batch output.
 func (c *Ctx) Flush(done bool) {
+	if c.outPath == "" {
+		return
+	}
 	c.mu.Lock()
 	defer c.mu.Unlock()
 	c.out.Done = done
